@@ -650,10 +650,12 @@ def check_C09(tier):
     # the verifier's own use of a hostile policy: matching stays linear at every nesting depth; the REFUSAL quotes the
     # failing statement pretty-printed (known finding RefusalPrintsNestedPolicy, identified by that call site)
     depths = [1, 8, 40, 400] if q else [1, 8, 40, 400, 1000]
-    c.replay("refusal", [dict(depth=d, wrap=w) for w in ("or", "and", "all", "any", "not") for d in depths],
+    c.replay("refusal", [dict(depth=0, wrap="grid")] + [dict(depth=d, wrap=w) for w in ("or", "and", "all", "any", "not") for d in depths],
              rule="invocation.ExecutionAllowed refused by a delegation policy not(W^d(== .x 1)) for W in or / and / all / any / not-not and "
                   "d up to %d: Policy.Match within 8 MiB + the sealed size, the verdict a refusal; the memory of the refusal itself "
-                  "over that bound is the recorded finding" % depths[-1])
+                  "over that bound is the recorded finding; a grid of 22 selectors (reaching before the start / past the end) x 10 statement forms "
+                  "x 6 data shapes (empty, short, missing, null, other kinds): Match answers and names the failing statement, the verifier "
+                  "agrees with it" % depths[-1])
     return c.finish()
 
 
